@@ -110,8 +110,7 @@ func (e *Env) elemArray(s Val) *Term {
 	if e.v == nil || e.st == nil {
 		specErr("heap access outside a function context")
 	}
-	h, _ := e.v.sliceHeapTerm(e.st, et)
-	return Select(h, SRef(s.T))
+	return e.v.readArray(e.st, et, SRef(s.T))
 }
 
 func (e *Env) index(s Val, i *Term) Val {
@@ -367,7 +366,11 @@ func (e *Env) call(x *Expr) Val {
 				o.vars[k] = v
 			}
 		}
-		return o.eval(x.Args[0])
+		r := o.eval(x.Args[0])
+		if r.T != nil && r.T.Sort == SSlice && r.Arr == nil && elemTypeOf(r.Typ) != nil && o.v != nil {
+			r.Arr = o.elemArray(r) // snapshot: contents as they were at entry
+		}
+		return r
 	case "pre":
 		if e.pre == nil {
 			specErr("pre() only available in loop invariants: %s", x)
@@ -384,7 +387,11 @@ func (e *Env) call(x *Expr) Val {
 				o.vars[k] = v
 			}
 		}
-		return o.eval(x.Args[0])
+		r := o.eval(x.Args[0])
+		if r.T != nil && r.T.Sort == SSlice && r.Arr == nil && elemTypeOf(r.Typ) != nil && o.v != nil {
+			r.Arr = o.elemArray(r) // snapshot: contents as they were before the loop
+		}
+		return r
 	case "fresh":
 		s := e.eval(x.Args[0])
 		if e.freshBase == nil {
